@@ -206,6 +206,77 @@ pub fn check(lib: &[(String, String)], key: &str, depth: u8) -> Option<String> {
     None
 }
 
+/// the `generate` command squashes the prompt note and the target note at depth 1 and, when `./.iwe` exists, writes the
+/// combined prompt to `./.iwe/prompt.md` (no model is configured with a key, so nothing leaves the process): after
+/// edits of *referenced* notes the prompt must be the expansion of the notes' current texts, i.e. what a graph freshly
+/// imported from them gives
+fn generate_sessions(rep: &mut Report, seed: u64, n: usize) {
+    use iwes::router::{server::Server, LspClient, ServerConfig};
+    use liwe::model::config::Configuration;
+    use liwe::model::node::NodeIter;
+    let dir = format!("/verif/harness/tmp/c17-gen-{}", std::process::id());
+    let _ = std::fs::create_dir_all(format!("{}/.iwe", dir));
+    let Ok(old) = std::env::current_dir() else { return };
+    if std::env::set_current_dir(&dir).is_err() {
+        return;
+    }
+    let expected = |state: &HashMap<String, String>, p: &str, t: &str| -> Option<String> {
+        dump::catch(|| {
+            let g = Graph::import(state, MarkdownOptions::default());
+            let (pk, tk) = (Key::from_file_name(p), Key::from_file_name(t));
+            format!(
+                "{}\n\n{}",
+                TreeIter::new(&(&g).squash(&pk, 1)).to_markdown(&pk.parent(), &MarkdownOptions::default()),
+                TreeIter::new(&(&g).squash(&tk, 1)).to_markdown(&tk.parent(), &MarkdownOptions::default())
+            )
+        })
+        .ok()
+    };
+    for i in 0..n {
+        let mut r = Rng::for_case(seed ^ 0xC17E, i as u64);
+        let k = r.range(3, 5);
+        let lib = gen_ref_library(&mut r, k, false);
+        let mut state: HashMap<String, String> = lib.iter().cloned().collect();
+        let (p, t) = (lib[0].0.clone(), lib[1].0.clone());
+        let mut configuration = Configuration::default();
+        configuration.models.insert("default".to_string(), Default::default());
+        let verdict = dump::catch(|| -> Option<String> {
+            let mut server = Server::new(ServerConfig { base_path: "/lib".to_string(), state: state.clone(), sequential_ids: Some(true), configuration: configuration.clone(), lsp_client: LspClient::Unknown });
+            for round in 0..3 {
+                let _ = std::fs::remove_file(".iwe/prompt.md");
+                let _ = server.handle_workspace_command(lsp_types::ExecuteCommandParams {
+                    command: "generate".to_string(),
+                    arguments: vec![json!({"new_key": "fresh-note", "prompt_key": p, "target_key": t})],
+                    work_done_progress_params: Default::default(),
+                });
+                let got = std::fs::read_to_string(".iwe/prompt.md").unwrap_or_default();
+                let want = expected(&state, &p, &t)?;
+                if got != want {
+                    return Some(format!("generate #{}: the prompt is {:?}, the expansion (depth 1) of the current texts of {:?} and {:?} is {:?}", round + 1, got.chars().take(300).collect::<String>(), p, t, want.chars().take(300).collect::<String>()));
+                }
+                // an edit of a note other than the prompt note (it may be referenced by it, directly or not)
+                let victim = lib[2 + (round % (lib.len() - 2))].0.clone();
+                let text = format!("{}\nedited in round {} of case {}\n", state[&victim], round, i);
+                server.handle_did_change_text_document(lsp_types::DidChangeTextDocumentParams {
+                    text_document: lsp_types::VersionedTextDocumentIdentifier { uri: crate::act::uri(&victim), version: round as i32 + 2 },
+                    content_changes: vec![lsp_types::TextDocumentContentChangeEvent { range: None, range_length: None, text: text.clone() }],
+                });
+                state.insert(victim, text);
+            }
+            None
+        });
+        rep.evaluations += 1;
+        rep.count("generate_sessions");
+        match verdict {
+            Ok(None) => {}
+            Ok(Some(w)) => rep.fail(json!({"kind": "generate_prompt", "library": lib, "prompt": p, "target": t, "what": w})),
+            Err(e) => rep.fail(json!({"kind": "generate_prompt", "library": lib, "prompt": p, "target": t, "what": format!("panic: {}", e)})),
+        }
+    }
+    let _ = std::env::set_current_dir(old);
+    let _ = std::fs::remove_dir_all(&dir);
+}
+
 pub fn run(ctx: &Ctx, model: &mut Model, rep: &mut Report) {
     rep.rule = "libraries with arbitrary block-reference graphs (trees, DAGs with sharing, cycles, self-loops, dangling targets, sub-directories), depth 0..6; chains and self-loops up to depth 255; correspondence: model squash tree + CLI text vs real `Graph::squash` tree + `iwe squash` text; oracle: termination within a deadline, no panic, word/reference multiset of the squashed tree = independent expansion of the source texts; non-trivial = some reference expanded; distinct by text".to_string();
     if let Some(path) = &ctx.replay {
@@ -226,6 +297,7 @@ pub fn run(ctx: &Ctx, model: &mut Model, rep: &mut Report) {
         }
         return;
     }
+    generate_sessions(rep, ctx.seed, if ctx.thorough { 300 } else { 40 });
     let n = if ctx.thorough { 3000 } else { 600 };
     for i in 0..n {
         let mut r = Rng::for_case(ctx.seed ^ 0xC17, i as u64);
